@@ -99,6 +99,8 @@ impl SchedulerCore {
     /// If a queue is idle and has pending jobs, places it in the schedule
     ///
     pub (super) fn reschedule_queue(&self, queue: &Arc<JobQueue>, core: Arc<SchedulerCore>) {
+        let mut already_scheduled = false;
+
         let reschedule = {
             let mut core = queue.core.lock().expect("JobQueue core lock");
 
@@ -134,6 +136,13 @@ impl SchedulerCore {
                     true
                 },
 
+                QueueState::Pending => {
+                    // Already in the schedule and waiting for a thread to pick it up. The thread that was going to do that may have been lost
+                    // since (a job on another queue panicked, say), so make sure that a thread is looking at the schedule
+                    already_scheduled = true;
+                    false
+                },
+
                 _ => {
                     // Not scheduled
                     false
@@ -143,6 +152,8 @@ impl SchedulerCore {
 
         if reschedule {
             self.schedule.lock().expect("Schedule lock").push_back(queue.clone());
+            self.schedule_thread(core);
+        } else if already_scheduled {
             self.schedule_thread(core);
         }
     }
